@@ -346,6 +346,28 @@ pub fn step(sess: &mut Sess, toks: &[&str]) -> Option<String> {
                 Err(e) => e,
             })
         }
+        ["vtkascii"] => {
+            // the tokens of the real ASCII text; the 3n tokens after `POINTS n <type>` are rewritten as exact rationals
+            let Sess::D2(s) = sess else { return Some("bad-op".into()) };
+            let text = catch_unwind(AssertUnwindSafe(|| {
+                let mut t = String::new();
+                s.map.to_vtk_ascii(&mut t);
+                t
+            }));
+            let Ok(text) = text else { return Some("panic".into()) };
+            let mut toks: Vec<String> = text.split_ascii_whitespace().map(str::to_string).collect();
+            if let Some(i) = toks.iter().position(|t| t == "POINTS") {
+                if let Some(n) = toks.get(i + 1).and_then(|t| t.parse::<usize>().ok()) {
+                    for k in (i + 3)..(i + 3 + 3 * n).min(toks.len()) {
+                        toks[k] = match toks[k].parse::<f64>() {
+                            Ok(x) => rat(x),
+                            Err(_) => format!("unparsable:{}", toks[k]),
+                        };
+                    }
+                }
+            }
+            Some(format!("ok {}", toks.join(" ")))
+        }
         ["vtkrt"] => {
             let Sess::D2(s) = sess else { return Some("bad-op".into()) };
             let p = match export_data(&s.map, false) {
